@@ -13,6 +13,7 @@ func init() {
 			"(C03-c) the admin policies are sorted whenever an exported entry returns (E4b, covers engines filled by InsertObject), and a missing Namespace object is resolved on the eval path; " +
 			"(C03-peer-first) wherever a NetworkPolicy rule's ports are examined for a concrete destination, ruleSelectsPeer has answered true before (the port step is partial: it fails on a named port for an IP destination, so the order of the conjunction matters); (C03-d) eval and list apply the same always-allowed predicates before cache and policies: the guard of each is read off the path conditions of the exits that return the top verdict before any cache or policy call (wrappers of predicates inlined, peers written by role), each predicate alone is sufficient, and no cache / policy call can run while one of them holds; " +
 			"(C03-first) eval loops go on to the next policy/rule only on NotCaptured (first match wins, as the list side's partition discipline C02-b). " +
+			"(C03-part-seen/-all) the IP partition list uses is refined by every ipBlock of every rule: a skip of an already-seen block needs a complete key (CIDR and excepts), every other ipBlock contributes unconditionally - eval answers for one address, list for a whole range. " +
 			"NOT decided: equality of the two computations on any actual input."
 		rules.FieldCoverage(p, r, "C03-a", "eval", rules.EvalEntries(p), append(append([]string{}, rules.FieldsNetpol...), rules.FieldsAdmin...), "list reads it, so eval must too")
 		rules.FieldCoverage(p, r, "C03-a-list", "list", rules.ListEntries(p), append([]string{}, rules.FieldsAdmin...), "eval reads it, so list must too")
